@@ -1,6 +1,6 @@
 ------------------------------ MODULE GateMC ------------------------------
 (* Bounded instance of Gate for exhaustive checking and for dumping behaviours as replay plans. *)
-EXTENDS Gate, TLC, IOUtils, Json
+EXTENDS Gate, IOUtils, Json
 
 MaxItems == atoi(IOEnv.MAXITEMS)
 MaxRuns  == atoi(IOEnv.MAXRUNS)
@@ -13,5 +13,5 @@ Dump == \/ ~(Len(runs) = MaxRuns /\ phase = "idle")
                              runs |-> runs]) \o "\n",
                      IOEnv.OUT, [format |-> "TXT", charset |-> "UTF-8", openOptions |-> <<"WRITE", "CREATE", "APPEND">>]).exitValue = 0
 BoundDump == Bound /\ Dump
-NextB == Next /\ Len(cur) < MaxItems + (IF phase = "idle" THEN 1 ELSE 0) /\ Len(runs) < MaxRuns
+NextB == Len(runs) < MaxRuns /\ Next /\ Len(cur') <= MaxItems
 =============================================================================
